@@ -66,6 +66,12 @@ def pattern_nodes(p, out):
             pattern_nodes(x, out)
 
 
+def anchor(F, prefix, simple):
+    """the unique function called `simple` below `prefix` (moving a function between sibling modules does not lose the anchor)"""
+    c = [n for n, h in F.hir.items() if n.startswith(prefix) and n.endswith("::" + simple) and h.get("kind") in ("fn", "method")]
+    return c[0] if len(c) == 1 else None
+
+
 def run(F, rep, tier):
     rep.explanation = ("Type checking at the model boundary is written as families of copy-pasted per-type closures (simple, collection, referenced; values, types, contexts). "
                        "Rule R11.1 reads every `match` arm keyed by a simple FEEL type (FeelType::K pattern or its typeRef name) off the HIR and requires that every "
@@ -121,12 +127,11 @@ def run(F, rep, tier):
     rep.floor(r1, "per-type arms", narms, 56)
     rep.analysed.update(dict(per_type_families=families, per_type_arms=narms))
     # the typeRef name table itself
-    t = F.hir.get(ME + "builders::type_ref_to_feel_type")
-    if t is None:
-        rep.missing_anchor(r1, ME + "builders::type_ref_to_feel_type")
+    if anchor(F, ME + "builders", "type_ref_to_feel_type") is None:
+        rep.missing_anchor(r1, ME + "builders::*::type_ref_to_feel_type")
 
     # ---------------- R11.2
-    cl = F.hir.get(ME + "builders::item_definition_type")
+    cl = F.hir.get(anchor(F, ME + "builders", "item_definition_type") or "")
     if cl is None:
         rep.missing_anchor(r2, ME + "builders::item_definition_type")
     else:
@@ -171,6 +176,7 @@ def run(F, rep, tier):
         (ME + "builders::decision_service::build_decision_service_evaluator", "decision service"),
     ]
     for fn, what in targets:
+        fn = anchor(F, ME, fn.split("::")[-1]) or fn
         h = F.hir.get(fn)
         if h is None:
             # the function-definition variants live in several builders; accept any function of the module
@@ -189,12 +195,40 @@ def run(F, rep, tier):
             rep.ok(r3, what, "wrapped into a function definition that carries the declared result type")
         else:
             rep.violation(r3, what, "the result of a %s is returned without FeelType::coerced(<declared output type>)" % what, "%s:%s" % (h["file"], h["line"]))
-    inv = 0
-    for n, h in F.hir.items():
-        if not (n.startswith(ME + "builders") or n.startswith("dmntk_feel_evaluator::builders")):
+    # every write into the caller's output context (the `&mut FeelContext` parameter of a decision / decision-service evaluator closure) carries a coerced value
+    nsink = 0
+    for fn, what in targets:
+        fn = anchor(F, ME, fn.split("::")[-1]) or fn
+        h = F.hir.get(fn)
+        if h is None or "business_knowledge_model" in fn:
             continue
-        for pat, _ in find_hir(h["body"], lambda x: x.get("k") in ("Let", "LetStmt") and "FunctionDefinition" in repr(x.get("p"))):
-            pass
+        for clo, _ in find_hir(h["body"], lambda x: x.get("k") == "Closure"):
+            outp = [i for i, p in enumerate(clo.get("params", [])) if p.get("t") is not None and F.ty(h, p["t"]).replace(" ", "") == "&mutdmntk_feel::context::FeelContext"]
+            if not outp:
+                continue
+            fl = hirflow.Flow({"params": clo["params"], "body": clo["body"]})
+            k = 0
+            for c, args, cond, line, node in fl.calls:
+                if not (c or "").endswith("FeelContext::set_entry") or len(args) < 3:
+                    continue
+                recv = args[0]
+                while isinstance(recv, tuple) and recv and recv[0] == "via":
+                    recv = recv[2]
+                if recv not in [("arg", i) for i in outp]:
+                    continue
+                nsink += 1
+                key = "result-sink:%s#%d" % (fn.split("::")[-1], k)
+                k += 1
+                v = args[2]
+                while isinstance(v, tuple) and v and v[0] == "via":
+                    v = v[2]
+                if isinstance(v, tuple) and v and v[0] == "call" and isinstance(v[1], str) and v[1].endswith("FeelType::coerced"):
+                    rep.ok(r3, key, "the value written to the output context is the result of coerced()")
+                else:
+                    rep.violation(r3, key, "%s writes %s into the caller's output context at line %s without FeelType::coerced(<declared output type>): a result that does not conform to the "
+                                  "output variable's type is returned instead of null" % (fn.split("::")[-1], str(v)[:90], line), "%s:%s" % (h["file"], line))
+    rep.floor(r3, "result writes into the output context", nsink, 3)
+    inv = 0
     for n, h in F.hir.items():
         if not n.startswith(ME):
             continue
@@ -230,8 +264,15 @@ def run(F, rep, tier):
             inner = find_hir(loops[0][0], lambda x: (x.get("k") in ("Let", "Match") and "dmntk_feel::values::Value::" in repr(x.get("p") or [a.get("p") for a in x.get("arms", [])])) or
                              (x.get("k") in ("Call", "MethodCall") and ("eval" in (x.get("method") or x.get("callee") or ""))) or
                              (x.get("k") == "Call" and x.get("callee") is None and strip(x.get("f", {})).get("res") == "local"))
-            if inner:
-                rep.ok(r4, key, "list test dominates a per-item test inside the loop")
+            fl = hirflow.Flow({"params": clo.get("params", []), "body": clo["body"]})
+            null_in_loop = [1 for d, cond, line in fl.returns if d == ("null",) and any(isinstance(c[0], tuple) and c[0] and c[0][0] == "loop-enter" for c in cond)]
+            delegated = find_hir(loops[0][0], lambda x: (x.get("k") in ("Call", "MethodCall") and ("eval" in (x.get("method") or x.get("callee") or ""))) or
+                                 (x.get("k") == "Call" and x.get("callee") is None and strip(x.get("f", {})).get("res") == "local"))
+            if inner and not null_in_loop and not delegated:
+                rep.violation(r4, key, "the item loop tests each item but no path inside the loop returns null: a non-conforming item is skipped instead of making the whole value null",
+                              "%s:%s" % (h["file"], clo.get("l")))
+            elif inner:
+                rep.ok(r4, key, "list test dominates a per-item test inside the loop" + ("; a failing item returns null" if null_in_loop else "; items are checked by an element evaluator"))
             else:
                 rep.violation(r4, key, "no per-item type test inside the item loop", "%s:%s" % (h["file"], clo.get("l")))
     rep.floor(r4, "collection evaluator closures", ncoll, 9)
